@@ -1,8 +1,8 @@
 """C11 — type size facts are exact and values report their true byte length."""
 from vfam import *  # noqa
 
-THEOREMS = ["C11_facts", "C11_value_len", "C11_bounds", "C11_fixed_exact"]
-PARTIAL = ["the whole statement is proved for the model (facts = spec facts for every type; reported length = |encoding| = |spec encoding|, within bounds, = fixed size, for every constructed value); values reached by mutation and the Python value_byte_length() glue are covered by the correspondence"]
+THEOREMS = ["C11_facts", "C11_value_len", "C11_bounds", "C11_fixed_exact", "C11_value_len_any"]
+PARTIAL = ["the whole statement is proved for the model (facts = spec facts for every type; reported length = |encoding| = |spec encoding|, within bounds, = fixed size, for every constructed value and for every representation of a value, i.e. also after decoding / import / mutation: C11_value_len_any); the Python value_byte_length() / type-level classmethods are tied by the correspondence"]
 COQ_IMPORTS = ["RM.Types", "RMR.RunV"]
 COQ_FN = "RunV.run_c11"
 COQ_CASE_TY = "(ty * val)"
